@@ -72,10 +72,10 @@ def check_arrays(Y, V1):
     if (V1 < 0).any():
         raise ValueError("a negative variance has been provided")
 
-    if np.size(Y) == Y.shape[0]:
+    if Y.ndim == 1:
         Y = Y[:, np.newaxis]
 
-    if np.size(V1) == V1.shape[0]:
+    if V1.ndim == 1:
         V1 = V1[:, np.newaxis]
 
     if Y.shape != V1.shape:
